@@ -22,8 +22,9 @@ def cfgs(ctx):
     out = [F.base("c12-stable3", F.A3, t3, initups=[l2, l3, t3], exits=[["a"], ["b"], ["a", "c"]]),
            F.base("c12-join3", F.A3, l3, initups=[l2], exits=[["a"], ["c"]], announcers=["a", "c"], conn=1),
            # a link is lost and comes back (within the seen-cache lifetime): the table replay must restore the routes
-           F.base("c12-rejoin3", F.A3, t3, initups=[l3, t3], exits=[["a"], []], announcers=["a"], conn=1, disc=1)]
+           F.base("c12-rejoin3", F.A3, l3, initups=[l3], exits=[["a"], []], announcers=["a"], conn=1, disc=1)]
     if not ctx.quick():
+        out.append(F.base("c12-rejoin3t", F.A3, t3, initups=[l3, t3], exits=[["a"], []], announcers=["a"], conn=1, disc=1))
         k4 = [("a", "b"), ("a", "c"), ("a", "d"), ("b", "c"), ("b", "d"), ("c", "d")]
         tops4 = [F.L(("a", "b"), ("b", "c"), ("c", "d")), F.L(("a", "b"), ("a", "c"), ("a", "d")),
                  F.L(("a", "b"), ("b", "c"), ("c", "d"), ("a", "d")), F.L(("a", "b"), ("b", "c"), ("a", "c"), ("c", "d")),
